@@ -49,6 +49,9 @@ def main():
     if os.path.exists(ep):
         extra = json.load(open(ep))
     results = {"mutants": {}, "seeds": {}, "benign": {}}
+    rp = os.path.join(V, "selftest", "results.json")
+    if only and os.path.exists(rp):
+        results = json.load(open(rp))
     jobs = []
     for d in sorted(glob.glob(os.path.join(V, "seeded", "*"))):
         n = os.path.basename(d)
